@@ -36,7 +36,7 @@ ASSUMPTIONS = ["reference model: reads are no-ops, selections are snapshots, a[.
                "known finding 'lazy-view-write-through' is classified by an explicit buffer-sharing model; only deviations equal to that model are attributed to it"]
 REQUIRED_FEATURES = ["pending_selection", "write_after_read", "alias_derivation",
                      "three_variables", "selection_of_selection", "write_through_alias"]
-BOUNDS = {"quick": "2 base arrays, 3 variables, every history of depth <= 4 over 9 selectors x 6 writes x 20 reads (all variables / sources), "
+BOUNDS = {"quick": "2 base arrays, 3 variables, every history of depth <= 4 over 9 selectors x 6 writes x 21 reads (all variables / sources), "
                    "plus depth 5 for histories on the first base whose first two steps are derivations",
           "thorough": "3 base arrays, depth <= 5 complete, depth 6 after two derivations"}
 
@@ -55,7 +55,7 @@ WRITES = ["row0", "col0", "fill", "cell", "rows1", "from"]
 # read name -> touches (materialises a pending variable)?
 READS = {"meta": False, "repr": True, "tolist": True, "ravel": True, "x[0]": True, "x[1:]": False, "x[:,::-1]": False,
          "x[0,0]": True, "x+1": True, "sum-1": True, "sum0": True, "concat": True, "x[...]": True, "x+y": True,
-         "x[:,::2]": False, "x[mask]": True, "rslice": True, "col_counts": False, "x*fcol": True, "argmax": True}
+         "x[:,::2]": False, "x[mask]": True, "rslice": True, "col_counts": False, "x*fcol": True, "argmax": True, "x[ri,ci]": True}
 VARS = ["a", "b", "c"]
 
 
@@ -227,6 +227,8 @@ def enabled(snap):
                 continue
             if r == "argmax" and (n < 1 or not all(rows)):
                 continue
+            if r == "x[ri,ci]" and (n < 1 or not rows[0] or not rows[-1]):
+                continue
             if r == "x+y":
                 for y in live:
                     if y != x and snap.lens(y) == snap.lens(x):
@@ -296,7 +298,16 @@ def do_read(x, r, y=None):
         return x * _fcol(x)          # only an exact, row-independent broadcast survives inf / 1e17 / decimals
     if r == "argmax":
         return x.argmax(axis=-1)
+    if r == "x[ri,ci]":
+        ri, ci = _index_operands(len(x))
+        out = x[ri, ci]
+        return (out, ri.tolist(), ci.tolist())      # the index operands come back with the result: a read must not change them
     raise ValueError(r)
+
+
+def _index_operands(n):
+    """ndarray (rows, cols) operands of equal shape with negative entries; only rows 0 and n-1, which the alphabet keeps non-empty"""
+    return np.array([0, n - 1, 0]), np.array([-1, 0, 0])
 
 
 def apply_impl(objs, op):
@@ -446,6 +457,15 @@ def _judge(acc, base, hist, op, res, objs, snap, lazy, obs, key, origin, k2, ctx
         if res != exp:
             fail("read-result-differs-from-fresh-array", (op, exp), (op, res))
             return "bad", None
+        if op[2] == "x[ri,ci]":
+            # absolute expectation (a defect that hits the fresh array too is invisible to the differential above)
+            rows = snap.v[op[1]]
+            ri, ci = _index_operands(len(rows))
+            want = ("T", (("A", "int64", (3,), tuple(rows[r][c] for r, c in zip(ri.tolist(), ci.tolist()))),
+                          ("T", tuple(("S", "int", int(v)) for v in ri)), ("T", tuple(("S", "int", int(v)) for v in ci))))
+            if res != want:
+                fail("element-read-wrong-or-index-operand-modified", (op, want), (op, res))
+                return "bad", None
         # (3a) a read leaves every variable's observable content unchanged
         if ctx["obs"].get(key) is not None and robs != ctx["obs"][key]:
             fail("read-changed-observable-content", ctx["obs"][key], robs)
